@@ -10,7 +10,7 @@ def linePrints (pf k : Nat) (l : Line) : List Print :=
 /-- what the source says: one delivery per `@print` statement, in source order, with the statement's line -/
 def specPrints (pf : Nat) : Nat → List Line → List Print
   | _, [] => []
-  | k, l :: ls => linePrints pf k l ++ specPrints pf (k + 1) ls
+  | k, l :: ls => linePrints pf k l ++ specPrints pf (l.next k) ls
 
 theorem flush_w {c k s s'} (h : flush c k s = .ok s') : s'.w = s.w := by
   unfold flush at h
